@@ -32,7 +32,7 @@ Lemma read_chunk_lines m k file st D : (1 <= k)%nat -> Inv m file st D -> Forall
 Proof.
   intros Hk HI HD HWf.
   pose proof (read_chunk_spec true f m k file st D Hk HI) as HGs.
-  unfold read_chunk in *. unfold m_is_finished, m_reported, m_lines_after, m_oneline_incomplete, m_oneline_kept, m_size_after, m_header_line, m_plus_line in *.
+  unfold read_chunk in *. unfold m_is_finished, m_reported, m_lines_after, m_incomplete_line, m_pending_incomplete_line, m_oneline_incomplete, m_oneline_kept, m_size_after, m_header_line, m_plus_line in *.
   set (temp0 := match r_prepend st with [] => [] | p => [p] end) in *.
   assert (Ht0 : concat temp0 = r_prepend st ++ []).
   { unfold temp0. destruct (r_prepend st); [reflexivity|]. cbn [concat]. reflexivity. }
@@ -45,9 +45,10 @@ Proof.
   - destruct HA as (Hle & Hle2 & Hcc & Hf1 & Hf2).
     destruct (cut f (concat temp)) as [size nl| | |l] eqn:Ecut; try exact I.
     destruct (HcutG (concat temp) size nl Ecut) as [HGb Hb].
-    split; [exact HGb|]. split; [exact Hb|].
-    destruct fin.
-    + cbn [r_finished] in *. intros _. destruct HGs as [_ HGs]. specialize (HGs eq_refl).
+    destruct fin; cbn [andb] in HGs |- *.
+    + revert HGs. destruct (negb (leftover_ok f (skipn size (concat temp)))); [intros _; exact I|intros HGs].
+      split; [exact HGb|]. split; [exact Hb|].
+      cbn [r_finished] in *. intros _. destruct HGs as [_ HGs]. specialize (HGs eq_refl).
       destruct (HT eq_refl) as [HS Happ]. cbv zeta in HS, Happ.
       set (S := r_prepend st ++ firstn (pos' - r_pos st) (skipn (r_pos st) file)) in *.
       assert (Hchunk : concat temp = S ++ terminator f S).
@@ -64,8 +65,10 @@ Proof.
       assert (HWc : W (concat temp)) by (apply (HW D); [exact HD|rewrite <- Hnorm; exact HWf]).
       pose proof (Hfull (concat temp) size nl Ecut Hends HWc) as Hsz. subst size.
       rewrite firstn_all, skipn_all. split; [reflexivity|]. symmetry. exact Hnorm.
-    + destruct m; cbn [r_finished]; discriminate.
-  - destruct HT as [[Hp Ha]|(S & HS & Ha & Hp & Hcn)]; [split; assumption|].
+    + split; [exact HGb|]. split; [exact Hb|]. destruct m; cbn [r_finished]; discriminate.
+  - cbn [andb] in HGs |- *. revert HGs.
+    destruct (negb (leftover_ok f pending)); [intros _; exact I|intros HGs].
+    destruct HT as [[Hp Ha]|(S & HS & Ha & Hp & Hcn)]; [split; assumption|].
     exfalso.
     (* the terminated pending text was still "incomplete": impossible for whole records *)
     assert (HDS : concat D ++ S = file).
@@ -115,6 +118,120 @@ Proof.
     [reflexivity|split; reflexivity|constructor|constructor|exact Hrun].
 Qed.
 End Generic.
+
+(* ---------- the same reader theorem without any assumption on the text: what is not delivered at the end of the
+   file is an ignorable tail (repaired code: __check_nothing_left raises otherwise) ---------- *)
+Section GenericTail.
+Variable f : fmt.
+Variable G : list Z -> Prop.      (* what every delivered chunk satisfies *)
+Variable T : list Z -> Prop.      (* what the undelivered tail satisfies besides being ignorable *)
+Hypothesis Hm : marker f = [].
+Hypothesis HcutG : forall chunk size nl, cut f chunk = CutOk size nl ->
+  G (firstn size chunk) /\ ends_nl (firstn size chunk) = true.
+Hypothesis HcutT : forall chunk size nl, cut f chunk = CutOk size nl -> T (skipn size chunk).
+Hypothesis HcompT : forall Y, complete f [Y] = CNo -> T Y.
+Hypothesis HT0 : T [].
+
+Lemma read_chunk_tail m k file st D : (1 <= k)%nat -> Inv m file st D ->
+  match read_chunk true f m k file st with
+  | RChunk b dropped app st' =>
+      G b /\ ends_nl b = true
+      /\ (r_finished st' = true ->
+          concat D ++ b ++ dropped = norm_text file /\ leftover_ok f dropped = true /\ T dropped)
+  | RNone dropped app st' =>
+      (dropped = [] /\ app = [])
+      \/ (concat D ++ dropped = norm_text file /\ leftover_ok f dropped = true /\ T dropped)
+  | _ => True
+  end.
+Proof.
+  intros Hk HI.
+  pose proof (read_chunk_spec true f m k file st D Hk HI) as HGs.
+  unfold read_chunk in *. unfold m_is_finished, m_reported, m_lines_after, m_incomplete_line, m_pending_incomplete_line in *.
+  set (temp0 := match r_prepend st with [] => [] | p => [p] end) in *.
+  assert (Ht0 : concat temp0 = r_prepend st ++ []).
+  { unfold temp0. destruct (r_prepend st); [reflexivity|]. cbn [concat]. reflexivity. }
+  assert (Hne0 : Forall (fun c => c <> []) temp0).
+  { unfold temp0. destruct (r_prepend st); [constructor|]. constructor; [discriminate|constructor]. }
+  pose proof (accumulate_spec true f k file (r_lines st) Hk (length file + 2) (r_pos st) temp0 false [] (r_prepend st) Ht0 (or_introl eq_refl)) as HA.
+  pose proof (accumulate_term f k file (r_lines st) Hm Hk (length file + 2) (r_pos st) temp0 false [] (r_prepend st) Ht0 Hne0 (or_introl eq_refl) ltac:(discriminate)) as HT.
+  destruct (accumulate true (length file + 2) f k file (r_lines st) (r_pos st) temp0 false []) as [temp pos' fin app|pending app|l|];
+    cbn [acc_post term_post] in *; try exact I.
+  - destruct HA as (Hle & Hle2 & Hcc & Hf1 & Hf2).
+    destruct (cut f (concat temp)) as [size nl| | |l] eqn:Ecut; try exact I.
+    destruct (HcutG (concat temp) size nl Ecut) as [HGb Hb].
+    pose proof (HcutT (concat temp) size nl Ecut) as HTr.
+    destruct fin; cbn [andb] in HGs |- *.
+    + revert HGs. destruct (leftover_ok f (skipn size (concat temp))) eqn:Eleft; cbn [negb]; [intros HGs|intros _; exact I].
+      split; [exact HGb|]. split; [exact Hb|].
+      cbn [r_finished] in *. intros _. destruct HGs as [_ HGs]. specialize (HGs eq_refl).
+      destruct (HT eq_refl) as [HS Happ]. cbv zeta in HS, Happ.
+      set (S := r_prepend st ++ firstn (pos' - r_pos st) (skipn (r_pos st) file)) in *.
+      assert (Hchunk : concat temp = S ++ terminator f S).
+      { rewrite Hcc, Happ. unfold S. rewrite <- app_assoc. reflexivity. }
+      assert (HDS : concat D ++ S = file).
+      { rewrite Hchunk, Happ in HGs. rewrite (firstn_skipn size) in HGs. rewrite app_assoc in HGs.
+        apply app_inv_tail in HGs. exact HGs. }
+      assert (Hfile : file <> []) by (rewrite <- HDS; destruct (concat D); [exact HS|discriminate]).
+      assert (Hnorm : norm_text file = concat D ++ concat temp).
+      { rewrite (norm_text_term_gen f Hm file Hfile). rewrite <- HDS at 2. rewrite (terminator_last _ (concat D) S HS).
+        rewrite Hchunk, <- HDS, <- app_assoc. reflexivity. }
+      split; [|split; [exact Eleft|exact HTr]].
+      rewrite Hnorm. rewrite (firstn_skipn size). reflexivity.
+    + split; [exact HGb|]. split; [exact Hb|]. destruct m; cbn [r_finished]; discriminate.
+  - cbn [andb] in HGs |- *. revert HGs.
+    destruct (leftover_ok f pending) eqn:Eleft; cbn [negb]; [intros HGs|intros _; exact I].
+    destruct HT as [[Hp Ha]|(S & HS & Ha & Hp & Hcn)]; [left; split; assumption|right].
+    assert (HDS : concat D ++ S = file).
+    { rewrite Hp in HGs. rewrite app_assoc in HGs. apply app_inv_tail in HGs. exact HGs. }
+    assert (Hfile : file <> []) by (rewrite <- HDS; destruct (concat D); [exact HS|discriminate]).
+    assert (Hnorm : norm_text file = concat D ++ pending).
+    { rewrite (norm_text_term_gen f Hm file Hfile). rewrite <- HDS at 2. rewrite (terminator_last _ (concat D) S HS).
+      rewrite Hp, Ha, <- HDS, <- app_assoc. reflexivity. }
+    split; [symmetry; exact Hnorm|]. split; [exact Eleft|]. apply HcompT. exact Hcn.
+Qed.
+
+Lemma read_chunks_loop_tail m k file : (1 <= k)%nat ->
+  forall fuel st acc chunks dropped app lines,
+    r_finished st = false -> Inv m file st (rev acc) ->
+    Forall G (rev acc) -> Forall (fun c => ends_nl c = true) (rev acc) ->
+    read_chunks_loop true fuel f m k file st acc = Done chunks dropped app lines ->
+    concat chunks ++ dropped = norm_text file /\ leftover_ok f dropped = true /\ T dropped
+    /\ Forall G chunks /\ Forall (fun c => ends_nl c = true) chunks.
+Proof.
+  intros Hk. induction fuel as [|fuel IH]; intros st acc chunks dropped app lines Hnf HI HGa HE Hrun; [discriminate|].
+  cbn [read_chunks_loop] in Hrun. rewrite Hnf in Hrun.
+  pose proof (read_chunk_spec true f m k file st (rev acc) Hk HI) as HS.
+  pose proof (read_chunk_tail m k file st (rev acc) Hk HI) as HD.
+  destruct (read_chunk true f m k file st) as [b d a st'|d a st'|l| |]; try discriminate.
+  - destruct HS as [HS1 HS2]. destruct HD as (HGb & Hb & HD).
+    assert (HG' : Forall G (rev (b :: acc))).
+    { cbn [rev]. apply Forall_app. split; [exact HGa|constructor; [exact HGb|constructor]]. }
+    assert (HE' : Forall (fun c => ends_nl c = true) (rev (b :: acc))).
+    { cbn [rev]. apply Forall_app. split; [exact HE|constructor; [exact Hb|constructor]]. }
+    destruct (r_finished st') eqn:Ef.
+    + injection Hrun as <- <- <- _. destruct (HD eq_refl) as (Hc & Hl & Ht).
+      split; [|split; [exact Hl|split; [exact Ht|split; assumption]]].
+      cbn [rev]. rewrite concat_snoc, <- app_assoc. exact Hc.
+    + destruct (HS1 eq_refl) as (HI' & _ & _).
+      apply (IH st' (b :: acc) chunks dropped app lines Ef); [cbn [rev]; exact HI'|exact HG'|exact HE'|exact Hrun].
+  - injection Hrun as <- <- <- _. destruct HD as [[-> ->]|(Hc & Hl & Ht)].
+    + split; [|split; [reflexivity|split; [exact HT0|split; assumption]]].
+      rewrite !app_nil_r in *. rewrite HS. symmetry. apply norm_text_fix.
+      destruct (concat_ends (rev acc) HE) as [H|H]; [left; rewrite <- HS, H; reflexivity|right; rewrite <- HS; exact H].
+    + split; [exact Hc|split; [exact Hl|split; [exact Ht|split; assumption]]].
+Qed.
+
+Theorem lines_chunks_tail m k file chunks dropped app lines :
+  (1 <= k)%nat ->
+  read_chunks true f m k file = Done chunks dropped app lines ->
+  concat chunks ++ dropped = norm_text file /\ leftover_ok f dropped = true /\ T dropped
+  /\ Forall G chunks /\ Forall (fun c => ends_nl c = true) chunks.
+Proof.
+  intros Hk Hrun. unfold read_chunks in Hrun.
+  apply (read_chunks_loop_tail m k file Hk (length file + 2) rinit [] chunks dropped app lines);
+    [reflexivity|split; reflexivity|constructor|constructor|exact Hrun].
+Qed.
+End GenericTail.
 
 (* ---------- counting line breaks ---------- *)
 Definition count_true (bs : list bool) : nat := length (filter (fun b => b) bs).
@@ -265,5 +382,73 @@ Theorem oneline_chunks_exact m k file chunks dropped app lines :
   dropped = [] /\ concat chunks = norm_text file /\ Forall whole chunks /\ Forall (fun c => ends_nl c = true) chunks.
 Proof.
   apply (lines_chunks_exact f whole whole eq_refl ol_cutG ol_full ol_comp ol_W).
+Qed.
+(* ---- no assumption on the text (repaired code): a completed read has delivered whole records and left an
+   ignorable tail of fewer than n lines; anything else at the end of the file raises FormatException ---- *)
+Lemma ol_cutT chunk size nl : cut f chunk = CutOk size nl -> (count_nl (skipn size chunk) < n)%nat.
+Proof.
+  intros H. destruct (cut_oneline_shape n hdr plus chunk size nl Hn H) as (Hc & Hnl & Hsz). cbv zeta in Hc, Hnl.
+  set (cnt := count_nl chunk) in *.
+  pose proof (Nat.mod_upper_bound cnt n ltac:(lia)) as Hub.
+  pose proof (Nat.mod_le cnt n ltac:(lia)) as Hle.
+  assert (Hm : (1 <= nl <= count_nl chunk)%nat) by (fold cnt; lia).
+  destruct (kth_newline chunk nl Hm) as (_ & Hk & _). cbv zeta in Hk. rewrite <- Hsz in Hk.
+  pose proof (count_nl_app (firstn size chunk) (skipn size chunk)) as Happ.
+  rewrite (firstn_skipn size chunk) in Happ. fold cnt in Happ. lia.
+Qed.
+
+Lemma ol_compT Y : complete f [Y] = CNo -> (count_nl Y < n)%nat.
+Proof.
+  intros H. unfold complete, f in H.
+  destruct (Nat.lt_ge_cases (count_nl Y) n) as [Hlt|Hge]; [exact Hlt|exfalso].
+  destruct (cut (OneLine n hdr plus) Y) eqn:Ecut; try discriminate H;
+    unfold cut in Ecut; unfold m_oneline_incomplete, m_oneline_kept, m_size_after in Ecut; fold (count_nl Y) in Ecut;
+    (replace (count_nl Y <? n)%nat with false in Ecut by (symmetry; apply Nat.ltb_ge; exact Hge));
+    cbv zeta in Ecut;
+    repeat match type of Ecut with
+           | (if ?c then _ else _) = _ => destruct c
+           | match ?c with _ => _ end = _ => destruct c
+           end; discriminate.
+Qed.
+
+Lemma ol_whole_concat (D : list (list Z)) : Forall whole D -> whole (concat D).
+Proof.
+  intros HD. unfold whole. induction HD as [|c D Hc _ IH]; [cbn; apply Nat.mod_0_l; lia|].
+  cbn [concat]. rewrite count_nl_app, Nat.add_mod by lia. unfold whole in Hc. rewrite Hc, IH.
+  cbn. apply Nat.mod_0_l. lia.
+Qed.
+
+Theorem oneline_chunks_tail m k file chunks dropped app lines :
+  (1 <= k)%nat ->
+  read_chunks true f m k file = Done chunks dropped app lines ->
+  concat chunks ++ dropped = norm_text file /\ leftover_ok f dropped = true /\ (count_nl dropped < n)%nat
+  /\ Forall whole chunks /\ Forall (fun c => ends_nl c = true) chunks.
+Proof.
+  apply (lines_chunks_tail f whole (fun t => (count_nl t < n)%nat) eq_refl ol_cutG ol_cutT ol_compT).
+  change (count_nl []) with 0%nat. lia.
+Qed.
+
+(* a completed read means: whole records plus an ignorable tail *)
+Theorem oneline_complete_or_error m k file chunks dropped app lines :
+  (1 <= k)%nat ->
+  read_chunks true f m k file = Done chunks dropped app lines ->
+  exists body tail, norm_text file = body ++ tail /\ whole body /\ leftover_ok f tail = true
+                    /\ (count_nl tail < n)%nat /\ concat chunks = body /\ dropped = tail.
+Proof.
+  intros Hk Hrun. destruct (oneline_chunks_tail m k file chunks dropped app lines Hk Hrun) as (Hc & Hl & Ht & HW & _).
+  exists (concat chunks), dropped. repeat split; try assumption; try reflexivity.
+  - symmetry. exact Hc.
+  - apply ol_whole_concat. exact HW.
+Qed.
+
+(* the records (lines) of the chunks are the lines of the text up to that tail *)
+Theorem oneline_records_tail m k file chunks dropped app lines_read :
+  (1 <= k)%nat ->
+  read_chunks true f m k file = Done chunks dropped app lines_read ->
+  lines (norm_text file) = concat (map lines chunks) ++ lines dropped.
+Proof.
+  intros Hk Hrun. destruct (oneline_chunks_tail m k file chunks dropped app lines_read Hk Hrun) as (Hc & _ & _ & _ & HE).
+  rewrite <- Hc. rewrite <- (lines_concat chunks HE).
+  destruct (concat_ends chunks HE) as [->|He]; [reflexivity|]. apply lines_app. exact He.
 Qed.
 End OneLineInst.
